@@ -81,6 +81,24 @@ def check_bin(ip, c):
                 bad.append(("binImgs:block-sum:%s" % name, dict(dtype=str(np.dtype(dtype)), got=None if got is None else np.asarray(got).tolist())))
             elif np.asarray(got).sum() != keep.sum():
                 bad.append(("binImgs:flux:%s" % name, {}))
+    # a bad pixel (nan, inf) spoils the block that contains it and no other: every output block is a function of its own pixels
+    cells = [cell for row in c["out"] for cell in row]
+    for poison in (np.nan, np.inf):
+        for pr, pc in ((0, 0), (h - 1, w - 1), (h // 2, w // 3)):
+            data = base.copy()
+            data[pr, pc] = poison
+            got = np.asarray(ip.binImgs(data.copy(), n), float)
+            ok = got.shape == exp.shape
+            if ok:
+                for k, cell in enumerate(cells):
+                    g = got.flat[k]
+                    if any(tuple(p) == (pr, pc) for p in cell):
+                        ok = ok and (np.isnan(g) if np.isnan(poison) else np.isposinf(g))
+                    else:
+                        ok = ok and g == exp.flat[k]
+            if not ok:
+                bad.append(("binImgs:block-sum:non-finite-pixel-leaks-into-other-blocks", dict(pixel=[pr, pc], value=repr(poison), got=got.tolist())))
+                return bad
     return bad
 
 
@@ -115,6 +133,17 @@ def check_azi(psf, c, rng):
             bad.append(("azimuthal_average:within-min-max", dict(n=n, got=got.tolist())))
         if bad:
             break
+    # a very bright core on a flat halo (a saturated star): every ring that holds no core pixel averages to the halo exactly
+    if not bad and len(c["rings"]) >= 2:
+        core_px = [tuple(p) for p in c["rings"][0]] + centre
+        for core_v, halo in ((1e13, 3.0), (1e15, 0.3), (2.0 ** 60, 1.0)):
+            img = np.full((n, n), halo)
+            for p in core_px:
+                img[p] = core_v
+            got = np.asarray(psf.azimuthal_average(img.copy()), float)
+            if got.shape != (n // 2,) or np.any(np.abs(got[1:] - halo) > 1e-12 * halo) or got[0] > core_v * (1 + 1e-12) or got[0] < halo:
+                bad.append(("azimuthal_average:ring-mean:bright-core-leaks-into-outer-rings", dict(n=n, core=core_v, halo=halo, got=got.tolist())))
+                break
     return bad
 
 
